@@ -193,10 +193,15 @@ def _check_case(ctx, base, points, makers, base_outs, route="ctor"):
         # a metadata node, so this route uses plain metadata only
         makers = [[{k: v for k, v in m.items() if k != "repr"} for m in mk] for mk in makers]
     is_list = base["k"] == "list"
+    expanding = any(x["k"] == "tf" for x in gen.walk(base))
     if base_outs is None:
-        base_outs = renderings(gen.build_root(base), is_list)
+        b_ = gen.build_root(base)
+        base_outs = renderings(b_.tagify() if expanding else b_, is_list)
     r2 = insert(base, points, makers)
     obj2 = build_by_route(base, points, makers, route)
+    if expanding and route != "tf":
+        # the base itself holds tagifiable objects: every view is taken of the expanded tree (with and without the metadata)
+        obj2 = obj2.tagify()
     ctx.state("arrival_routes", route)
     if route == "tf":
         # an un-expanded tree cannot be asked for markup directly: compare the views that expand first
@@ -259,6 +264,13 @@ def special_bases(ids):
         gen.TAG("div", T(), T(), T()), gen.TAG("div", {"k": "html", "s": "h9;"}, T(), {"k": "html", "s": "h10;"}),
         {"k": "list", "t": "taglist", "c": [{"k": "html", "s": "h11;"}, {"k": "html", "s": "h12;"}]}, {"k": "list", "t": "taglist", "c": [T(), T()]},
         gen.TAG("script", {"k": "html", "s": "h13;"}, {"k": "html", "s": "h14;"}),
+        # raw-text elements whose several text children hold markup-significant characters
+        gen.TAG("script", {"k": "text", "s": "if (a<b && c>d) {"}, {"k": "text", "s": "x&y; }"}), gen.TAG("style", {"k": "text", "s": "a>b{}"}, {"k": "text", "s": "c&d{}"}, {"k": "text", "s": "<!-- -->"}),
+        gen.TAG("div", gen.TAG("script", {"k": "text", "s": "1<2"}, {"k": "text", "s": "3>2"}, ws=False), T()),
+        # tagifiable objects (expanding to 0, 2, 3 nodes or to one) among the visible children: compared through the views that expand first
+        gen.TAG("div", {"k": "tf", "ret": "list", "c": [gen.TAG("span", T(), ws=False), gen.TAG("span", T(), ws=False)]}, T()),
+        gen.TAG("div", T(), {"k": "tf", "ret": "list", "c": []}), gen.TAG("p", {"k": "tf", "ret": "list", "c": [T(), gen.TAG("b", T(), ws=False), T()]}, gen.TAG("i", ws=False)),
+        {"k": "list", "t": "taglist", "c": [{"k": "tf", "ret": "list", "c": [T(), T()]}, gen.TAG("div", T()), {"k": "tf", "ret": "one", "c": [gen.TAG("em", T(), ws=False)]}]},
         # children that arrive one by one through += (a bare string operand for text)
         gen.TAG("p", T(), T(), how="iadd_each"), gen.TAG("div", T(), T(), T(), how="iadd_each"), gen.TAG("div", {"k": "html", "s": "h15;"}, T(), T(), how="iadd_each"),
         gen.TAG("span", T(), T(), ws=False, how="iadd_each"),
@@ -294,7 +306,8 @@ def run(ctx):
         base = gen.unshare(base)  # positions are addressed by path: no node may sit at two paths
         pts = insertion_points(base)
         is_list = base["k"] == "list"
-        base_outs = renderings(gen.build_root(base), is_list)
+        b_ = gen.build_root(base)
+        base_outs = renderings(b_.tagify() if any(x["k"] == "tf" for x in gen.walk(base)) else b_, is_list)
         n = len(pts)
         if n <= (10 if ctx.thorough else 8):
             subsets = itertools.chain.from_iterable(itertools.combinations(range(n), k) for k in range(0, n + 1))
